@@ -13,7 +13,7 @@ LEVEL = "fault_enumeration"
 RULE = ("A history is a list of up to 6 NP2Converter.process(overwrite) runs, each with a fresh converter, options "
         "{post_check, compress, delete_original} in {F,T}^3 and optionally a crash (BaseException) raised at the k-th "
         "instrumented event: every Reader.read, _split2shanks per window and stream, _closefiles, write_meta_data per file, "
-        "check_NP24 entry, mtscomp.compress before/after per file, Path.rename, Path.unlink. Initial state: NP2.4 "
+        "check_NP24 entry, mtscomp.compress before/after per file, Path.rename, Path.unlink, and after every Path.mkdir (shank folder creation). Initial state: NP2.4 "
         "multi-shank / NP2.4 single shank / NP2.1 / NP1 / already split shank file x bin / cbin. (enumerated) for 8 base "
         "configurations EVERY crash point k of the first run is enumerated (event count measured by a dry run) and followed "
         "by a non-overwrite retry and an overwrite retry. (Hypothesis) random histories with random options and crash "
@@ -28,7 +28,7 @@ RULE = ("A history is a list of up to 6 NP2Converter.process(overwrite) runs, ea
 EXHAUSTIVE_NOTE = "for the 9 base configurations every crash point of the first run is enumerated; random histories are sampled"
 ASSUMPTIONS = ["a crash is a BaseException raised at an instrumented call in the harness process; open handles are then closed "
                "(flushed) by the harness: a power cut tearing unflushed buffers is not modelled",
-               "no crash is injected between the mkdir calls of _prepare_files (not in the property's list of interruption points)"]
+               "interruptions are injected at calls (before/after), not between two bytecodes inside one un-instrumented call"]
 BUDGET = {"quick": 800, "thorough": 40000}
 SHRINK = {"quick": False, "thorough": True}
 WINDOW = 1200
@@ -229,7 +229,7 @@ class World:
         targets = [(sg.Reader, "read", "read", "before"), (npx.NP2Converter, "_split2shanks", "split", "before"),
                    (npx.NP2Converter, "_closefiles", "close", "before"), (sg, "write_meta_data", "meta", "before"),
                    (npx.NP2Converter, "check_NP24", "verify", "before"), (mtscomp, "compress", "compress_begin", "before"),
-                   (mtscomp, "compress", "compress_end", "after"), (Path, "rename", "rename", "before"), (Path, "unlink", "unlink", "before")]
+                   (mtscomp, "compress", "compress_end", "after"), (Path, "rename", "rename", "before"), (Path, "unlink", "unlink", "before"), (Path, "mkdir", "mkdir", "after")]
         orig_check = npx.NP2Converter.check_NP24
         if r.get("corrupt"):
             world = self
